@@ -29,7 +29,7 @@ def define(g, name, crate, file, module, harness_file, properties, entries, para
             raise RuntimeError("unsubstituted template parameter in " + harness_file)
         sess.append(file, t)
         for (rel, hf) in (extra_appends or []):
-            sess.append(rel, read(os.path.join(VERIF, "units/harness", hf)))
+            sess.append_once(rel, read(os.path.join(VERIF, "units/harness", hf)), hf)
 
     def harnesses(tier, prop=None):
         out = []
